@@ -89,6 +89,16 @@ Theorem c14_gives_up : forall e1 e2 bo cf cfg outs,
 Proof. exact run_gives_up. Qed.
 Print Assumptions c14_gives_up.
 
+(** Accumulated elapsed time: under any clock that is consistent with the waits (never runs backwards, each
+    wait takes at least its length: [Clock_advances]), with a limit configured, the waits already spent PLUS
+    the throttle about to be honoured never exceed MaxElapsedTime - for every number of consecutive throttled
+    replies.  (A loop that restarted its accounting after a throttled wait would break this.) *)
+Theorem c14_gives_up_accumulated : forall e1 e2 bo cf cfg,
+  max_elapsed cfg <> 0 -> forall outs, enabled cfg = true -> Clock_advances e1 e2 bo outs ->
+  Waits_within_limit (max_elapsed cfg) outs (retry_run e1 e2 bo cf cfg outs).
+Proof. exact run_within_limit. Qed.
+Print Assumptions c14_gives_up_accumulated.
+
 (** Retry disabled: one attempt, no wait, its outcome reported. *)
 Theorem c14_disabled_single_attempt : forall e1 e2 bo cf cfg outs,
   enabled cfg = false ->
@@ -135,3 +145,20 @@ Example ex_final_and_disabled :
   classify (RespGrpc 8 None false) = OFinal /\ classify (RespGrpc 8 (Some 0) false) = ORetry 0 /\
   classify (RespHttp 500 (Some 3) false) = OFinal.
 Proof. vm_compute. repeat split. Qed.
+
+(** Three throttled replies of 100 each under a limit of 250, the clock advancing by exactly the waits:
+    the third throttle would overrun (200 + 100 > 250): three attempts, two waits, error. *)
+Example ex_accumulated :
+  let e := fun k => Z.of_nat k * 100 in
+  let outs := [ORetry 100; ORetry 100; ORetry 100; ORetry 100; OSuccess false] in
+  Clock_advances e e (fun _ => 1) outs /\
+  let o := retry_run e e (fun _ => 1) (fun _ _ => false) {| enabled := true; max_elapsed := 250 |} outs in
+  attempts o = 3%nat /\ waits o = [100; 100] /\ res o = RErr EMaxWouldElapse.
+Proof.
+  cbv zeta. split.
+  - split; [cbn; lia|]. intros k. split; [lia|].
+    assert (H : throttle_of (nth k [ORetry 100; ORetry 100; ORetry 100; ORetry 100; OSuccess false] OFinal) <= 100).
+    { do 6 (destruct k as [|k]; [cbn; lia|]). cbn. lia. }
+    lia.
+  - vm_compute. repeat split.
+Qed.
